@@ -310,8 +310,11 @@ def overlay_check():
                    "NO": {"positions": {"branch_code": [0, 0]}}, "DE": {"in_sepa_zone": False}}
         json.dump(overlay, open(os.path.join(ib, "zz_user.json"), "w"))
         # sorts BEFORE overwrite.json by file name ('-' < '.') but after it by stem: the later file must win
-        json.dump({"NO": {"positions": {"account_code": [4, 9]}}, "IS": {"in_sepa_zone": False}},
+        # AD.positions goes dict (generated) -> scalar (this file) -> dict (zz_user): only a LEFT fold replaces it wholesale
+        json.dump({"NO": {"positions": {"account_code": [4, 9]}}, "IS": {"in_sepa_zone": False}, "AD": {"positions": "n/a"}},
                   open(os.path.join(ib, "overwrite-local.json"), "w"))
+        overlay["AD"] = {"positions": {"bank_code": [0, 4], "account_code": [8, 20]}}
+        json.dump(overlay, open(os.path.join(ib, "zz_user.json"), "w"))
         v2 = {"expand_from": "bank_codes", "expand_into": "bank_code",
               "entries": [{"name": "Z", "short_name": "Z", "bic": "", "country_code": "ZZ", "bank_codes": ["1", "2"]}]}
         json.dump(v2, open(os.path.join(bk, "zz_user.v2.json"), "w"))
